@@ -238,6 +238,8 @@ func (w *world) afterTSS(c *xchain, in *intent, out *txOutcome) {
 		w.rec.SetNontrivial()
 		if t.signer != "tss" {
 			w.rec.Violate("C06", "tss_forged_recv", t.signer+":"+t.proof, "a packet of the TSS-secured chain was accepted from %s (proof field: %s), who is not the TSS account", t.signer, t.proof)
+		} else if c.registry[in.signer.Acc.String()][name] == "" {
+			w.rec.Violate("C06", "unauthorised_recv", "tss_account_not_registered_for_chain", "a packet of the TSS-secured chain %s was accepted from the TSS account although governance has it registered for %v only", name, c.registry[in.signer.Acc.String()])
 		}
 		if m.received[t.seq] {
 			w.rec.Violate("C01", "double_accept", "tss", "receive of %s/%s/%d accepted twice", name, c.Cfg.Name, t.seq)
@@ -292,6 +294,8 @@ func (w *world) afterTSS(c *xchain, in *intent, out *txOutcome) {
 		w.rec.SetNontrivial()
 		if t.signer != "tss" {
 			w.rec.Violate("C06", "tss_forged_ack", t.signer+":"+t.proof, "an acknowledgement of the TSS-secured chain was accepted from %s (proof field: %s), who is not the TSS account", t.signer, t.proof)
+		} else if c.registry[in.signer.Acc.String()][name] == "" {
+			w.rec.Violate("C06", "unauthorised_ack", "tss_account_not_registered_for_chain", "an acknowledgement of the TSS-secured chain %s was accepted from the TSS account although governance has it registered for %v only", name, c.registry[in.signer.Acc.String()])
 		}
 		if t.pkt.acked {
 			w.rec.Violate("C05", "double_ack", "tss", "packet %d to the TSS chain acknowledged twice", t.pkt.seq)
